@@ -28,6 +28,7 @@ func runC15(c *Ctx) {
 	L.Rule("column-table-fresh", "every occurrence/index table updated per column is allocated inside the column loop (fresh for each column)")
 	L.Rule("frame", "the only writes into memory reachable from the receiver are element stores into row residues ([]uint8): names, row order, row count and cached length are not written")
 
+	c.checkFlagsNotRewritten("option-not-rewritten")
 	mask := c.fn("align", "*align", "Mask")
 	occ := c.fn("align", "*align", "MaskOccurences")
 
